@@ -278,7 +278,7 @@ impl Property for C01 {
     }
 
     fn budget(tier: Tier) -> u64 {
-        tier.pick(10_000, 120_000)
+        tier.pick(10_000, 16_000)
     }
 
     fn rule() -> &'static str {
